@@ -7,18 +7,18 @@ CONSTANTS
   Rm = 2
   Rc = 3
   MaxTx = 2
-  MaxSends = 3
-  MaxInd = 1
-  Mech = "none"
-  Preset = "none"
-  UseFp = FALSE
-  Dts = {0, 1, 4, 5, 6}
+  MaxSends = 2
+  MaxInd = 0
+  Mech = "st"
+  Preset = "sha"
+  UseFp = TRUE
+  Dts = {0, 2, 7}
   StaleTicks = 6
   MaxNow = 40
   FixD1 = TRUE
   SimDepth = 0
-  Msgs <- MsgsA
-  Apps <- AppsSmall
+  Msgs <- MsgsD
+  Apps <- AppsRich
 CONSTRAINT TimeBound
 VIEW view
 INVARIANT NoMonitorRejects
